@@ -8,23 +8,25 @@ import sys
 HELPER = r'''
 import ctypes, json, sys
 lib = ctypes.CDLL(sys.argv[1])
-lib.probe.argtypes = [ctypes.c_char_p, ctypes.c_size_t, ctypes.c_char_p]
+div = int(sys.argv[2]) if len(sys.argv) > 2 else 1
+extra = [int(x) for x in sys.argv[3:]]
+lib.probe.argtypes = [ctypes.c_char_p, ctypes.c_size_t, ctypes.c_char_p] + [ctypes.c_uint32] * len(extra)
 lib.probe.restype = ctypes.c_uint32
 for line in sys.stdin:
     inp = bytes(json.loads(line))
     buf = ctypes.create_string_buffer(64)
     sys.stdout.write("BEGIN\n"); sys.stdout.flush()
-    code = lib.probe(inp, len(inp), buf)
+    code = lib.probe(inp, len(inp) // div, buf, *extra)
     sys.stdout.write(json.dumps({"code": code, "digest": list(buf.raw)}) + "\n"); sys.stdout.flush()
 '''
 
 
-def run_native(so, inputs, timeout_per_input=10.0):
+def run_native(so, inputs, timeout_per_input=10.0, len_div=1, extra=()):
     """inputs: list of bytes.  Returns list of dict(code, digest) | dict(abort=True, stderr=..) | dict(timeout=True)."""
     out = [None] * len(inputs)
     i = 0
     while i < len(inputs):
-        p = subprocess.Popen([sys.executable, "-c", HELPER, so], stdin=subprocess.PIPE, stdout=subprocess.PIPE,
+        p = subprocess.Popen([sys.executable, "-c", HELPER, so, str(len_div)] + [str(x) for x in extra], stdin=subprocess.PIPE, stdout=subprocess.PIPE,
                              stderr=subprocess.PIPE, text=True)
         payload = "".join(json.dumps(list(x)) + "\n" for x in inputs[i:])
         try:
